@@ -119,7 +119,11 @@ class World:
         async def ok(name, sig, ctx):
             return nt.ValidResult.PASS
         seq0 = 7 if self.variant == 'resumed' else 0
-        self.inst = SvsInst(BASE, IDS['s'], lambda inst: self.missing.append(dict(inst.local_sv)),
+        def on_missing(inst):
+            self.missing.append(dict(inst.local_sv))
+            if self.variant == 'cbpub':
+                inst.new_data()         # an application that answers news with a publication of its own, from inside the callback
+        self.inst = SvsInst(BASE, IDS['s'], on_missing,
                             DigestSha256Signer(for_interest=True), ok, sync_interval=30, suppression_interval=0.2,
                             last_used_seq_num=seq0)
         self.start_viol = []
@@ -196,6 +200,7 @@ class World:
             return viol
         kind = op[0]
         before = self.local()
+        seq_before0 = self.inst.self_seq
         state_before = self.inst.state.name
         nmiss = len(self.missing)
         nfail = len(self.failures())
@@ -238,6 +243,11 @@ class World:
                     if s > want.get(k, 0):
                         want[k] = s
                         rose = True
+                republished = self.variant == 'cbpub' and fired > 0
+                if republished:
+                    want['s'] = seq_before0 + 1
+                    if self.inst.self_seq != seq_before0 + 1:
+                        bad('publish-seq|from-callback', f'publishing from the missing-data callback: own sequence number {seq_before0} -> {self.inst.self_seq}')
                 if nz(after) != nz(want):
                     bad('merge', f'local vector {before} after receiving {v} is {after}, entry-wise maximum is {want}')
                 if any(after.get(k, 0) < b for k, b in before.items()):
@@ -253,6 +263,16 @@ class World:
                         self.H = dict(v)
                 else:
                     self.H = None
+                if republished:
+                    self.H = None
+                    ints = self.new_interests()
+                    if len(ints) != 1:
+                        bad(f'publish-emission|from-callback|n={len(ints)}',
+                            f'{len(ints)} sync Interests emitted promptly after publishing from the missing-data callback (expected 1)')
+                    for w in ints:
+                        vec = self.decode_sync(w)
+                        if vec is None or nz(vec) != nz(after):
+                            bad('emitted-vector', f'sync Interest carries {vec}, local vector is {after}')
             if self.new_interests():
                 bad('receive-emits', 'a sync Interest was emitted while handling a received vector without time passing')
         elif kind == 'pub':
@@ -300,6 +320,13 @@ class World:
 
 class ResumedWorld(World):
     variant = 'resumed'
+
+
+class CbPubWorld(World):
+    variant = 'cbpub'
+
+
+WORLDS = {'plain': World, 'resumed': ResumedWorld, 'cbpub': CbPubWorld}
 
 
 # -- relay scenario: the Interests one instance emits go through the real receive path of another -----------------
@@ -389,6 +416,7 @@ def plan(tier, seed):
     ops = op_list(maxseq)
     units = [{'kind': 'bfs', 'first': i, 'depth': depth, 'maxseq': maxseq} for i in range(len(ops))]
     units += [{'kind': 'bfs', 'first': i, 'depth': 2, 'maxseq': maxseq, 'variant': 'resumed'} for i in range(len(ops))]
+    units += [{'kind': 'bfs', 'first': i, 'depth': 3, 'maxseq': maxseq, 'variant': 'cbpub'} for i in range(len(ops))]
     rd = 5 if tier == 'quick' else 7
     units += [{'kind': 'relay', 'first': f, 'depth': rd} for f in RELAY_OPS]
     return {
@@ -424,7 +452,7 @@ def unit(arg):
                 acc.violation(sig, what + f'; history {list(hist)}', {'kind': 'bfs', 'variant': arg.get('variant', 'plain'), 'hist': [list(o) if o[0] != 'recv' else ['recv', [list(x) for x in o[1]]] + list(o[2:]) for o in hist]})
             if acc.evaluations % 400 == 1:
                 acc.sample({'history': [repr(o) for o in hist], 'state': summary})
-        res = explore_histories(ResumedWorld if arg.get('variant') == 'resumed' else World, ops, arg['depth'], [(first,)], on_t)
+        res = explore_histories(WORLDS[arg.get('variant', 'plain')], ops, arg['depth'], [(first,)], on_t)
         acc.notes['bfs_states'] += res['states']
     else:
         for tail in itertools.product(RELAY_OPS, repeat=arg['depth'] - 1):
@@ -452,7 +480,7 @@ def replay(case):
     if case['kind'] == 'relay':
         return [{'sig': s, 'what': w} for s, w in run_relay(case['seq'])]
     hist = [_op_from_json(o) for o in case['hist']]
-    w = ResumedWorld() if case.get('variant') == 'resumed' else World()
+    w = WORLDS[case.get('variant', 'plain')]()
     out = []
     try:
         for op in hist:
